@@ -1046,7 +1046,8 @@ static void build_expr(WorkList *list, ASTNode *expr, Environment *env) {
                             emit_literal(list, "({ assert(false && \"unary minus requires array<int> or array<float>\"); (DynArray*)0; })");
                         }
                     } else {
-                        emit_literal(list, "(-");
+                        /* "(- " with a space: a negative literal operand must not form the C token "--" */
+                        emit_literal(list, "(- ");
                         build_expr(list, expr->as.prefix_op.args[0], env);
                         emit_literal(list, ")");
                     }
